@@ -10,17 +10,17 @@ open TokenRing
 
 /-- `update_next_previous`'s successor as a function of the LAS bits: the first active address above
 TS, else the lowest active address, else TS itself. -/
-def nsOf (act : Nat → Bool) (ts : Nat) : Nat :=
+def lasSucc (act : Nat → Bool) (ts : Nat) : Nat :=
   match (List.range 128).find? (fun a => act a && decide (a > ts)) with
   | some a => a
   | none => match (List.range 128).find? act with
     | some a => a
     | none => ts
 
-theorem updateNextPrev_ns (r : TokenRing) : (updateNextPrev r).ns = nsOf r.isActive r.ts := by
+theorem updateNextPrev_ns (r : TokenRing) : (updateNextPrev r).ns = lasSucc r.isActive r.ts := by
   have e : (fun a => decide (r.isActive a = true ∧ decide (a > r.ts) = true)) = fun a => r.isActive a && decide (a > r.ts) := by
     funext a; simp
-  simp only [updateNextPrev, activeList, nsOf, List.find?_filter, List.head?_filter, e]
+  simp only [updateNextPrev, activeList, lasSucc, List.find?_filter, List.head?_filter, e]
   rfl
 
 theorem passBit_false (ts ns a : Nat) (old : Bool) (hne : a ≠ ts)
@@ -42,9 +42,9 @@ theorem passBit_keep (ts ns a : Nat) (old : Bool) (hne : a ≠ ts)
 theorem passBit_self (ts ns : Nat) (old : Bool) : passBit ts ns ts old = true := by
   unfold passBit; rw [if_pos rfl]
 
-theorem nsOf_pass (act act' : Nat → Bool) (ts ns : Nat) (hts : ts < 128) (h : nsOf act ts = ns)
-    (hact' : ∀ a, a < 128 → act' a = passBit ts ns a (act a)) : nsOf act' ts = ns := by
-  unfold nsOf at h ⊢
+theorem lasSucc_pass (act act' : Nat → Bool) (ts ns : Nat) (hts : ts < 128) (h : lasSucc act ts = ns)
+    (hact' : ∀ a, a < 128 → act' a = passBit ts ns a (act a)) : lasSucc act' ts = ns := by
+  unfold lasSucc at h ⊢
   rcases h1 : (List.range 128).find? (fun a => act a && decide (a > ts)) with _ | x
   · rw [h1] at h
     simp only at h
@@ -122,7 +122,7 @@ theorem nsOf_pass (act act' : Nat → Bool) (ts ns : Nat) (hts : ts < 128) (h : 
 
 /-- NS is the successor the LAS dictates (true of every ring view produced by `update_next_previous`,
 i.e. after any witnessed pass in Discovery/Valid, any `remove_station`, any `set_next_station`). -/
-def NsCoherent (r : TokenRing) : Prop := nsOf r.isActive r.ts = r.ns
+def NsCoherent (r : TokenRing) : Prop := lasSucc r.isActive r.ts = r.ns
 
 theorem NsCoherent.congr {r r' : TokenRing} (h : NsCoherent r) (ha : r'.active = r.active) (ht : r'.ts = r.ts)
     (hn : r'.ns = r.ns) : NsCoherent r' := by
@@ -133,7 +133,7 @@ theorem NsCoherent.congr {r r' : TokenRing} (h : NsCoherent r) (ha : r'.active =
 theorem updateLas_own_ns (r : TokenRing) (hts : r.ts < 128) (h : NsCoherent r) : (r.updateLas r.ts r.ns).ns = r.ns := by
   unfold updateLas
   rw [updateNextPrev_ns]
-  apply nsOf_pass r.isActive _ r.ts r.ns hts h
+  apply lasSucc_pass r.isActive _ r.ts r.ns hts h
   intro a ha
   simp [isActive, ha, passBit]
 
